@@ -364,11 +364,21 @@ func deliveredCase(tags []*flv.Tag, times []int64, k int, gop bool, flags int) *
 	delivered = append(delivered, tags[k:]...)
 	// source time of the replayed copies of the configuration tags = that of the first cached GOP
 	// tag (PushTo stamps them with gop[0].Timestamp), 0 without a cached GOP
+	// … and without a cached GOP the stream's current time: the source time of the latest media tag
 	var init int64
+	found := false
 	for _, t := range delivered[:nReplay] {
 		if v, ok := tm[t]; ok {
-			init = v
+			init, found = v, true
 			break
+		}
+	}
+	if !found {
+		for i := k - 1; i >= 0; i-- {
+			if t := tags[i]; !t.IsMetadata() && !t.IsH2645SequenceHeader() && !t.IsAACSequenceHeader() {
+				init = times[i]
+				break
+			}
 		}
 	}
 	wc := &wrCase{flags: flags}
